@@ -78,6 +78,10 @@ def verdict(shape, a, b, azimuth, clat, clon, plat, plon, rel_tol=0.03, abs_tol=
     if abs(clat) > 850000000 or abs(plat) > 850000000:
         return None
     res = []
+    # how far the two projections are apart at this point says how much any flat projection of it can be trusted: twice that
+    # distance is added to the tolerance band (matters for needle-shaped areas tens of kilometres long)
+    (n1, e1), (n2, e2) = enu_great_circle(clat, clon, plat, plon), enu_equirect(clat, clon, plat, plon)
+    abs_tol = abs_tol + 2.0 * math.hypot(n1 - n2, e1 - e2)
     for proj in (enu_great_circle, enu_equirect):
         n, e = proj(clat, clon, plat, plon)
         al, ac = area_frame(n, e, azimuth)
